@@ -40,8 +40,16 @@ func ConcurrentLookalikePackage(name string) *ConcPackage {
 	add("go-bare-return-in-range", pre+"\txs := make([]uint64, 4)\n\txs[0] = 3\n\txs[1] = 4\n\txs[2] = 0\n\txs[3] = 5\n\tgo func() {\n\t\tfor _, v := range xs {\n\t\t\tif v == 0 {\n\t\t\t\twg.Done()\n\t\t\t\treturn\n\t\t\t}\n\t\t\t*out = *out + v\n\t\t}\n\t\twg.Done()\n\t}()\n\twg.Wait()\n\treturn *out\n")
 	add("go-bare-return-in-nested-if", pre+"\tlevel := uint64(2)\n\tgo func() {\n\t\tif level > 0 {\n\t\t\tif level > 1 {\n\t\t\t\twg.Done()\n\t\t\t\treturn\n\t\t\t}\n\t\t\t*out = *out + 10\n\t\t}\n\t\t*out = *out + 1\n\t\twg.Done()\n\t}()\n\twg.Wait()\n\treturn *out\n")
 	add("go-bare-return-early-exit", pre+"\tlevel := uint64(2)\n\tgo func() {\n\t\tif level > 1 {\n\t\t\twg.Done()\n\t\t\treturn\n\t\t}\n\t\t*out = *out + 1\n\t\twg.Done()\n\t}()\n\twg.Wait()\n\treturn *out\n")
+	add("defer-unlock-in-conditional-block", "\tmu := new(sync.Mutex)\n\tx := new(uint64)\n\t*x = 1\n\twg := new(sync.WaitGroup)\n\twg.Add(1)\n\tdeferInBlock(mu, x, wg, true)\n\twg.Wait()\n\tmu.Lock()\n\tr := *x\n\tmu.Unlock()\n\treturn r\n")
+	add("defer-unlock-at-function-top", "\tmu := new(sync.Mutex)\n\tx := new(uint64)\n\t*x = 1\n\twg := new(sync.WaitGroup)\n\twg.Add(1)\n\tdeferAtTop(mu, x, wg)\n\twg.Wait()\n\tmu.Lock()\n\tr := *x\n\tmu.Unlock()\n\treturn r\n")
+	add("defer-done-in-goroutine", pre+"\tgo func() {\n\t\tdefer wg.Done()\n\t\t*out = *out + 5\n\t}()\n\twg.Wait()\n\treturn *out\n")
+	add("reassign-define-bound-captured-by-goroutine", pre+"\tmu := new(sync.Mutex)\n\tv := uint64(1)\n\tmu.Lock()\n\tgo func() {\n\t\tmu.Lock()\n\t\t*out = v\n\t\tmu.Unlock()\n\t\twg.Done()\n\t}()\n\tv = 2\n\tmu.Unlock()\n\twg.Wait()\n\treturn *out\n")
+	add("opassign-define-bound-captured-by-goroutine", pre+"\tmu := new(sync.Mutex)\n\tv := uint64(1)\n\tmu.Lock()\n\tgo func() {\n\t\tmu.Lock()\n\t\t*out = v\n\t\tmu.Unlock()\n\t\twg.Done()\n\t}()\n\tv += 6\n\tmu.Unlock()\n\twg.Wait()\n\treturn *out\n")
+	add("redefine-captured-by-goroutine", pre+"\tmu := new(sync.Mutex)\n\tv := uint64(1)\n\tmu.Lock()\n\tgo func() {\n\t\tmu.Lock()\n\t\t*out = v\n\t\tmu.Unlock()\n\t\twg.Done()\n\t}()\n\tv, w2 := uint64(2), uint64(3)\n\tmu.Unlock()\n\twg.Wait()\n\treturn *out + w2 + v\n")
 	add("go-named-function-with-args", pre+"\tv := uint64(9)\n\tgo addDone(wg, out, v+1)\n\twg.Wait()\n\treturn *out\n")
-	b.WriteString("func addDone(wg *sync.WaitGroup, out *uint64, v uint64) {\n\t*out = *out + v\n\twg.Done()\n}\n")
+	b.WriteString("func addDone(wg *sync.WaitGroup, out *uint64, v uint64) {\n\t*out = *out + v\n\twg.Done()\n}\n\n")
+	b.WriteString("func deferInBlock(mu *sync.Mutex, x *uint64, wg *sync.WaitGroup, guarded bool) {\n\tif guarded {\n\t\tmu.Lock()\n\t\tdefer mu.Unlock()\n\t}\n\tgo func() {\n\t\tmu.Lock()\n\t\t*x = *x * 2\n\t\tmu.Unlock()\n\t\twg.Done()\n\t}()\n\t*x = *x + 1\n}\n\n")
+	b.WriteString("func deferAtTop(mu *sync.Mutex, x *uint64, wg *sync.WaitGroup) {\n\tmu.Lock()\n\tdefer mu.Unlock()\n\tgo func() {\n\t\tmu.Lock()\n\t\t*x = *x * 2\n\t\tmu.Unlock()\n\t\twg.Done()\n\t}()\n\t*x = *x + 1\n}\n")
 	cp.Source = b.String()
 	return cp
 }
